@@ -1052,6 +1052,8 @@ func replay(c *vh.Ctx, m *vh.Model, file string) {
 		queueDeliveries(c, m, pm)
 	case "disc-reason", "base-msg", "protohandshake":
 		baseProtocolProbes(c, m, c.Rng.Fork())
+	case "frame-io":
+		frameIOProbes(c, m)
 	case "frame-lifetime":
 		replayLifetime(c, m, rp)
 	case "discover-lifetime":
@@ -1126,6 +1128,7 @@ func main() {
 	th := time.Now()
 	frames(c, m)
 	lifetimeFrames(c, m)
+	frameIOProbes(c, m)
 	t1 := time.Now()
 	lifetimeDiscovery(c)
 	discovery(c, m)
